@@ -49,6 +49,9 @@ def build():
                rules=[(r'tt\.probeDTM\(pos, ply, dtmScore\)', '(dtmScore = ghost_probe_score, ghost_probe_hit)', 1),
                       (r'return timeAndReturn\(true\);', 'return 1;', 1)],
                epilogue='\n    return hasDtm ? 2 : GHOST_NO_RETURN;\n')
+    # mate-distance pruning at the head of negaScout: from the start of the body to the first logging block
+    U.fragment(S_C, 'Search_negaScout_mdp', r'\A', r'if \(logFile\.isOpened\(\)\) \{\s*const SearchTreeInfo& sti = searchTreeInfo\[ply-1\];', within='Search::negaScout', within_kw=dict(nparams=6, template=True),
+               params=[('int', 'alpha', False), ('int', 'beta', True), ('int', 'ply', False)], ret='int', using_ns=('SearchConst',), epilogue='\n    return GHOST_NO_RETURN;\n')
     ev = ClassInfo('Evaluate'); U.tr.add_class(ev)
     U.pull(EV_C, 'Evaluate::swindleScore', as_static=True)
     return U
@@ -109,6 +112,14 @@ CONTRACTS.update({
             '(nPieces <= 4 && ghost_probe_hit && ghost_probe_score != 0 && (MATE0 - 1 - STD_ABS(ghost_probe_score) - ply) > 100 - hmc) ==> (__CPROVER_return_value == 2 && spec_rec_score(ent->data, ply) == 0 && spec_rec_type(ent->data) == (ghost_probe_score > 0 ? TType_T_GE : TType_T_LE))',
         ],
     },
+    # mate-distance pruning: the best score reachable from a node at `ply` is a mate delivered on the next ply, MATE0-(ply+1);
+    # the node is cut (returning alpha) exactly when alpha already reaches the clipped beta
+    'Search_negaScout_mdp': {
+        'requires': ['__CPROVER_is_fresh(beta, sizeof(*beta))', '0 <= ply && ply <= 1000', '-MATE0 <= alpha && alpha <= MATE0', '-MATE0 <= *beta && *beta <= MATE0'],
+        'assigns': ['*beta'],
+        'ensures': ['*beta == (__CPROVER_old(*beta) < MATE0 - (ply + 1) ? __CPROVER_old(*beta) : MATE0 - (ply + 1))',
+                    '(alpha >= *beta) ==> __CPROVER_return_value == alpha', '(alpha < *beta) ==> __CPROVER_return_value == GHOST_NO_RETURN'],
+    },
     'Evaluate_swindleScore': {
         'requires': ['-32767 <= evalScore && evalScore <= 32767', '-1000 <= distToWin && distToWin <= 1000'],
         'assigns': [],
@@ -133,6 +144,7 @@ void h_getMatedInN(void) { struct PositionValue* v; int* n; hv(); PositionValue_
 void h_isDraw(void) { struct PositionValue* v; hv(); PositionValue_isDraw(v); CANARY_POINT; }
 void h_probeDTM_tail(void) { struct PositionValue* v; int ply; int* sc; hv(); TBGenerator_probeDTM_tail(v, ply, sc); CANARY_POINT; }
 void h_updateEvScore(void) { struct TTEntry* e; int s; hv(); updateEvScore(e, s); CANARY_POINT; }
+void h_mdp(void) { int a, ply; int* b; hv(); Search_negaScout_mdp(a, b, ply); CANARY_POINT; }
 void h_onDemand(void) { struct TTEntry* e; int ply, hmc, np; hv(); TBProbe_tbProbe_onDemand(e, ply, hmc, np); CANARY_POINT; }
 void h_swindle(void) { int a, b; hv(); Evaluate_swindleScore(a, b); CANARY_POINT; }
 '''
@@ -147,10 +159,11 @@ GROUPS = [
     Group('probeDTM_tail', 'h_probeDTM_tail', enforce='TBGenerator_probeDTM_tail', replace=('PositionValue_getMateInN', 'PositionValue_getMatedInN', 'PositionValue_isDraw'), min_props=3),
     Group('updateEvScore', 'h_updateEvScore', enforce='updateEvScore', min_props=3),
     Group('tbProbe_onDemand', 'h_onDemand', enforce='TBProbe_tbProbe_onDemand', min_props=5),
+    Group('negaScout_mdp', 'h_mdp', enforce='Search_negaScout_mdp', min_props=3),
     Group('swindleScore', 'h_swindle', enforce='Evaluate_swindleScore', replace=('BitUtil_lastBit',), min_props=3),
 ]
 PROPERTIES = {
-    'C04': ['notifyPV_scoreConv', 'probeDTM_tail'],
+    'C04': ['notifyPV_scoreConv', 'probeDTM_tail', 'negaScout_mdp'],
     'C13': ['tbProbe_onDemand', 'updateEvScore', 'swindleScore', 'probeDTM_tail', 'notifyPV_scoreConv'],
     'C12': ['PositionValue_setMateInN', 'PositionValue_setMatedInN', 'PositionValue_getMateInN', 'PositionValue_getMatedInN', 'PositionValue_isDraw', 'probeDTM_tail'],
 }
